@@ -46,13 +46,101 @@ def _apply(v: V):
     return src
 
 
+class PV(NamedTuple):
+    """A variant given as a unified diff (the corpora /verif/seeded and /verif/refactors), applied in memory."""
+
+    id: str
+    patch: str  # path of the diff
+    expect: Optional[str]  # "*" = any new finding of the property; None = behaviour-preserving twin
+    why: str = ""
+
+
+def apply_unified_diff(patch_text: str, read):
+    """Apply a `git diff` to sources obtained through read(relpath) -> str.  Returns {relpath: new text} or None if a
+    hunk does not fit (hunks are located by their exact old text, searched outwards from the recorded line)."""
+    import re
+
+    out = {}
+    cur = None
+    lines = patch_text.split("\n")
+    i = 0
+    hunks = {}
+    while i < len(lines):
+        ln = lines[i]
+        if ln.startswith("+++ "):
+            path = ln[4:].strip()
+            cur = path[2:] if path.startswith("b/") else path
+            if cur == "/dev/null":
+                return None
+            hunks[cur] = []
+        elif ln.startswith("--- ") and ln[4:].strip() == "/dev/null":
+            return None  # file creation: not needed for these corpora
+        elif ln.startswith("@@") and cur is not None:
+            m = re.match(r"@@ -(\d+)(?:,(\d+))? \+(\d+)(?:,(\d+))? @@", ln)
+            if not m:
+                return None
+            old, new = [], []
+            i += 1
+            while i < len(lines) and not lines[i].startswith("@@") and not lines[i].startswith("diff --git"):
+                h = lines[i]
+                if h.startswith("\\"):
+                    pass
+                elif h.startswith("-"):
+                    old.append(h[1:])
+                elif h.startswith("+"):
+                    new.append(h[1:])
+                elif h.startswith(" ") or h == "":
+                    if h == "" and i == len(lines) - 1:
+                        break
+                    old.append(h[1:])
+                    new.append(h[1:])
+                else:
+                    break
+                i += 1
+            hunks[cur].append((int(m.group(1)), old, new))
+            continue
+        i += 1
+    for rel, hs in hunks.items():
+        try:
+            src = read(rel)
+        except (OSError, KeyError):
+            return None
+        body = src.split("\n")
+        shift = 0
+        for start, old, new in hs:
+            want = start - 1 + shift
+            pos = None
+            for d in range(0, len(body) + 1):
+                for cand in (want - d, want + d):
+                    if 0 <= cand <= len(body) - len(old) and body[cand:cand + len(old)] == old:
+                        pos = cand
+                        break
+                if pos is not None:
+                    break
+            if pos is None:
+                return None
+            body[pos:pos + len(old)] = new
+            shift += len(new) - len(old)
+        out[rel] = "\n".join(body)
+    return out
+
+
 def _run_variant(args):
     pid, v = args
-    src = _apply(v)
-    if src is None:
-        return (v.id, "skipped", "anchor text not present (or not unique) in the current tree", [])
+    if isinstance(v, PV):
+        try:
+            overrides = apply_unified_diff(open(v.patch).read(), lambda rel: (REPO / rel).read_text())
+        except OSError:
+            overrides = None
+        if overrides is None:
+            return (v.id, "skipped", "the diff no longer applies to the current tree", [])
+    else:
+        src = _apply(v)
+        if src is None:
+            return (v.id, "skipped", "anchor text not present (or not unique) in the current tree", [])
+        overrides = {v.file: src}
     try:
-        project = Project(overrides={v.file: src})
+        project = Project(overrides=overrides)
         mod = importlib.import_module(f"sa.props.{pid.lower()}")
         ctx = report.Ctx(pid, project, False)
         mod.check(ctx)
@@ -66,9 +154,18 @@ def _run_variant(args):
 def variants_for(pid: str) -> List[V]:
     try:
         m = importlib.import_module(f"sa.variants.{pid.lower()}")
+        vs = list(m.VARIANTS)
     except ModuleNotFoundError:
-        return []
-    return list(m.VARIANTS)
+        vs = []
+    # independent seeded changes that break this property (written by sub-agents, confirmed in a scratch worktree)
+    for d in sorted((report.VERIF / "seeded").glob(f"{pid}-*")):
+        if (d / "patch.diff").exists():
+            vs.append(PV(f"seeded/{d.name}", str(d / "patch.diff"), "*", "independent seeded change"))
+    # independent behaviour-preserving refactorings (of any property's code): no check may react
+    for d in sorted((report.VERIF / "refactors").glob("C*-R*")):
+        if (d / "patch.diff").exists():
+            vs.append(PV(f"refactors/{d.name}", str(d / "patch.diff"), None, "independent behaviour-preserving refactoring"))
+    return vs
 
 
 def run(pid: str, base_ctx: report.Ctx) -> dict:
@@ -105,7 +202,7 @@ def run(pid: str, base_ctx: report.Ctx) -> dict:
                 results.append({"variant": vid, "status": "ok", "detail": "twin stayed silent"})
             continue
         rule, _, sub = v.expect.partition("~")
-        hit = [k for (r, k, m) in new if (r == rule or r.startswith(rule + ".")) and (not sub or sub in k or sub in m)]
+        hit = [k for (r, k, m) in new if (rule == "*" or r == rule or r.startswith(rule + ".")) and (not sub or sub in k or sub in m)]
         if hit:
             results.append({"variant": vid, "status": "ok", "detected_by": hit[0], "why": v.why})
         else:
